@@ -266,11 +266,20 @@ func runCase(r *mon.Rec, idx int) {
 	rp := replay{idx}
 	var base, res *dhcpv4.DHCPv4
 	var err1, err2 error
+	// the caller keeps its modifiers in a list of its own (with or without spare capacity) and hands the same list to
+	// another builder first: a builder must neither disturb the caller's list nor the packet it answers
+	other := builders[rng.IntN(len(builders))]
+	spare := []int{0, 0, 1, 3, 6, 12}[rng.IntN(6)]
+	reuse := rng.IntN(2) == 0
+	inBefore := inP.Canon()
 	pan, val, st := mon.Guard(func() {
 		base, err1 = b.build()
-		var ms []dhcpv4.Modifier
+		ms := make([]dhcpv4.Modifier, 0, len(mods)+spare)
 		for _, m := range mods {
 			ms = append(ms, m.lib)
+		}
+		if reuse {
+			other.build(ms...)
 		}
 		res, err2 = b.build(ms...)
 	})
@@ -280,6 +289,14 @@ func runCase(r *mon.Rec, idx int) {
 	}
 	if err1 != nil || err2 != nil {
 		r.Violate("C15:error:"+b.name, fmt.Sprintf("builder failed: %v %v", err1, err2), rp)
+		return
+	}
+	inAfter := "(no longer an IPv4 packet)"
+	if ia, ok := proj.P4(in); ok {
+		inAfter = ia.Canon()
+	}
+	if inAfter != inBefore {
+		r.Violate("C15:"+b.name+":input-changed", fmt.Sprintf("%s (after %s with the same modifier list): the packet the builders were given changed: %s -> %s", b.name, other.name, trunc(inBefore), trunc(inAfter)), rp)
 		return
 	}
 	bp, ok1 := proj.P4(base)
@@ -396,7 +413,7 @@ func runCase(r *mon.Rec, idx int) {
 		exp.Xid = rpj.Xid
 	}
 	if exp.Canon() != rpj.Canon() {
-		r.Violate("C15:"+b.name+":modifiers-do-not-prevail", fmt.Sprintf("%s with modifiers %v: expected %s, got %s", b.name, names, exp.Canon(), rpj.Canon()), rp)
+		r.Violate("C15:"+b.name+":modifiers-do-not-prevail", fmt.Sprintf("%s with modifiers %v (list with %d spare slots, handed to %s first: %v): expected %s, got %s", b.name, names, spare, other.name, reuse, exp.Canon(), rpj.Canon()), rp)
 		return
 	}
 	var ms []string
